@@ -339,6 +339,10 @@ class SpecEval(object):
                 return self.deep_eq(self.ev(args[0]), self.call(('call', ('id', 'old'), [args[0]])))
             if name == 'asRunes':
                 v = self.ev(args[0])
+                if isinstance(v, SeqV):
+                    if v.alt is None:
+                        raise SpecError('%s: asRunes on a sequence without rune view' % self.what)
+                    return SeqV(v.alt, v.off, v.len, ex.rune_tid())
                 return SliceV(v.arr, v.off, v.len, v.cap, ex.rune_tid())
             if name == 'asBytes':
                 v = self.ev(args[0])
